@@ -905,6 +905,10 @@ func (c ConditionsSet) invert() ConditionsSet {
 	// !(a | b | c) == (!a & !b & !c)
 	conds := ConditionsSet{}
 	for _, cc := range c {
+		if len(cc) == 0 {
+			// an empty conjunct matches everything, so the negation matches nothing
+			return ConditionsSet{Conditions{&impossibleCondition}}
+		}
 		conds = conds.And(cc.invert())
 	}
 	return conds
